@@ -27,8 +27,9 @@ func (sc *SubnetConfig) getSubnetsVarint(seed []byte, weighted bool) ([]*phantom
 			return nil, fmt.Errorf("failed to seed random for weighted rand")
 		}
 
-		// nolint:staticcheck // here for backwards compatibility with clients
-		mrand.Seed(seedInt)
+		// A private generator seeded the way legacy clients seed the global one yields the same
+		// values without sharing state between concurrent selections.
+		rng := mrand.New(mrand.NewSource(seedInt))
 
 		choices := make([]wr.Choice, 0, len(sc.WeightedSubnets))
 		for _, cjSubnet := range sc.WeightedSubnets {
@@ -40,7 +41,7 @@ func (sc *SubnetConfig) getSubnetsVarint(seed []byte, weighted bool) ([]*phantom
 			return nil, err
 		}
 
-		return parseSubnets(c.Pick().(*pb.PhantomSubnets))
+		return parseSubnets(c.PickSource(rng).(*pb.PhantomSubnets))
 
 	}
 
@@ -214,12 +215,12 @@ func SelectAddrFromSubnet(seed []byte, net1 *net.IPNet) (net.IP, error) {
 		return nil, fmt.Errorf("failed to create seed ")
 	}
 
-	// nolint:staticcheck // here for backwards compatibility with clients
-	mrand.Seed(seedInt)
+	// A private generator seeded the way legacy clients seed the global one yields the same
+	// bytes without sharing state between concurrent selections.
+	rng := mrand.New(mrand.NewSource(seedInt))
 	randBytes := make([]byte, addrLen/8)
 
-	// nolint:staticcheck // here for backwards compatibility with clients
-	_, err := mrand.Read(randBytes)
+	_, err := rng.Read(randBytes)
 	if err != nil {
 		return nil, err
 	}
